@@ -145,6 +145,11 @@ pub enum Action {
 	/// HTLC transactions selected by `same_block` in the same block and those of `later` handed to
 	/// the miner afterwards; the victim sees the chain `v_late` blocks late
 	Cheat { n: usize, chan: usize, age: u32, same_block: u32, later: u32, v_late: u8 },
+	/// C05 (Byzantine peer): the message at the head of the queue from->to is altered in flight
+	/// before delivery. kind 0: revoke_and_ack with a different (valid scalar) secret, 1:
+	/// revoke_and_ack with the secret of the wrong commitment number (the next point's parent
+	/// replaced), 2: commitment_signed with a signature made invalid
+	Tamper { from: usize, to: usize, kind: u8 },
 	/// perturbations of the liquidation phase (see justice::LiqPlan)
 	LiqPlan { holds: Vec<(u32, u32)>, restarts: Vec<(u32, usize)>, fees: Vec<(u32, usize, u32)> },
 }
@@ -180,6 +185,7 @@ impl Action {
 			Action::Settle => "Settle",
 			Action::Liquidate => "Liquidate",
 			Action::Cheat { .. } => "Cheat",
+			Action::Tamper { .. } => "Tamper",
 			Action::LiqPlan { .. } => "LiqPlan",
 		}
 	}
@@ -205,7 +211,7 @@ impl Action {
 			| Action::Sweep { n }
 			| Action::Cheat { n, .. }
 			| Action::Abandon { n, .. } => *n,
-			Action::Deliver { to, .. } => *to,
+			Action::Deliver { to, .. } | Action::Tamper { to, .. } => *to,
 			Action::Disconnect { a, .. } | Action::Reconnect { a, .. } => *a,
 			Action::Send { from, .. } => *from,
 			Action::Mine { .. } | Action::Reorg { .. } | Action::Settle | Action::Liquidate | Action::LiqPlan { .. } => 99,
@@ -518,6 +524,9 @@ pub struct World {
 	/// C06: (node, chan) -> the node's archived holder commitments
 	pub archive: BTreeMap<(usize, usize), Vec<crate::justice::ArchEntry>>,
 	pub cheat: Option<crate::justice::CheatState>,
+	/// set while a Tamper action delivers the head of a queue
+	pub tamper: Option<u8>,
+	pub tampers_done: u32,
 	pub liq_plan: Option<crate::justice::LiqPlan>,
 }
 
@@ -683,6 +692,8 @@ impl World {
 			oracle: Default::default(),
 			archive: BTreeMap::new(),
 			cheat: None,
+			tamper: None,
+			tampers_done: 0,
 			liq_plan: None,
 		}
 	}
@@ -758,6 +769,7 @@ impl World {
 				"chainstyle" => ("C11", "C11-0 panic"),
 				"roundtrip" => ("C12", "C12-0 panic"),
 				"onionline" => ("C14", "C14-0 panic"),
+				"tamper" => ("C05", "C05-0 panic"),
 				_ => ("C01", "C01-3 panic"),
 			}
 		};
@@ -1214,6 +1226,20 @@ impl World {
 				self.note_close_with_inflight(to, c);
 			}
 		}
+		let mut m2 = m2;
+		let mut tampered_chan = None;
+		if let Some(kind) = self.tamper.take() {
+			tampered_chan = self.apply_tamper(&mut m2, kind);
+			if let Some(c) = tampered_chan {
+				self.out.bump(&format!("fault:tampered_{}", m2.kind()));
+				self.chans[c].tainted = true;
+				self.chans[c].close_requested = true;
+				if self.chans[c].force_closed_by.is_none() {
+					self.chans[c].force_closed_by = Some(to);
+				}
+				self.ledgers[c].disabled = true;
+			}
+		}
 		let src = self.nodes[from].node_id;
 		let res = catch(|| match &m2 {
 			WireMsg::OpenChannel(x) => mgr.handle_open_channel(src, x),
@@ -1240,7 +1266,87 @@ impl World {
 			self.library_panic(&format!("Deliver {}", m2.kind()), msg, loc);
 		}
 		self.after_node_action(to);
+		if let Some(c) = tampered_chan {
+			// C05-5: a forged revocation / an invalid commitment signature is refused: the receiver
+			// fails the channel instead of advancing its state
+			self.out.bump("oracle:C05-5 forged revocation or signature is refused");
+			let cid = self.chans[c].channel_id;
+			let still_open = self
+				.mgr(to)
+				.map(|m| m.list_channels().iter().any(|d| d.channel_id == cid))
+				.unwrap_or(false);
+			if still_open && !self.dead {
+				self.violate(
+					"C05",
+					"C05-5 forged message accepted",
+					format!(
+						"node {} processed a {} from node {} on channel {} that had been altered in flight and kept the channel open",
+						to,
+						m2.kind(),
+						from,
+						c
+					),
+				);
+			}
+		}
 		true
+	}
+
+	/// Alters `m` as a Byzantine peer would; returns the channel concerned when something changed.
+	fn apply_tamper(&mut self, m: &mut WireMsg, kind: u8) -> Option<usize> {
+		match m {
+			WireMsg::Revoke(r) => {
+				let c = self.chan_by_id(&r.channel_id)?;
+				match kind {
+					0 => {
+						// another valid scalar
+						let mut s = r.per_commitment_secret;
+						s[31] ^= 0x01;
+						s[0] &= 0x7f;
+						if s == r.per_commitment_secret {
+							return None;
+						}
+						r.per_commitment_secret = s;
+					},
+					_ => {
+						// a secret that is a valid scalar but belongs to nothing
+						let mut s = [0x11u8; 32];
+						s[5] = (self.step & 0xff) as u8;
+						r.per_commitment_secret = s;
+					},
+				}
+				Some(c)
+			},
+			WireMsg::Commit(batch) => {
+				let first = batch.first_mut()?;
+				let c = self.chans.iter().position(|x| x.channel_id == first.channel_id)?;
+				// swap in the signature of something else: sign-valid encoding, wrong message
+				let mut ser = first.signature.serialize_compact();
+				ser[40] ^= 0x40;
+				match bitcoin::secp256k1::ecdsa::Signature::from_compact(&ser) {
+					Ok(sig) => first.signature = sig,
+					Err(_) => return None,
+				}
+				Some(c)
+			},
+			_ => None,
+		}
+	}
+
+	pub fn do_tamper(&mut self, from: usize, to: usize, kind: u8) -> bool {
+		let head_ok = match self.queues.get(&(from, to)).and_then(|q| q.front()) {
+			Some(WireMsg::Revoke(_)) => kind < 2,
+			Some(WireMsg::Commit(_)) => kind == 2,
+			_ => false,
+		};
+		if !head_ok || !self.is_conn(to, from) || self.nodes[to].live.is_none() {
+			return false;
+		}
+		self.tamper = Some(kind);
+		self.tampers_done += 1;
+		let r = self.do_deliver(from, to);
+		self.tamper = None;
+		r
 	}
 
 	pub fn do_disconnect(&mut self, a: usize, b: usize, side: u8) {
@@ -2177,6 +2283,7 @@ impl World {
 				self.liquidate();
 				true
 			},
+			Action::Tamper { from, to, kind } => self.do_tamper(*from, *to, *kind),
 			Action::Cheat { n, chan, age, same_block, later, v_late } => {
 				self.do_cheat(*n, *chan, *age, *same_block, *later, *v_late)
 			},
